@@ -59,6 +59,9 @@ class VCtx(Ctx):
         decl = z3.Function('spec!' + name, *sorts, SORTS[ret])
         self.spec_funs[name] = dict(params=params, sorts=sorts, decl=decl, ret=SORTS[ret], body=body)
         if body is None:
+            if any(s_.kind() == z3.Z3_ARRAY_SORT for s_ in sorts):
+                # uninterpreted function of arrays: two applications on extensionally equal arrays are equal (pair axioms)
+                self.registry.__dict__.setdefault('uf_arrays', {})['spec!' + name] = decl
             return
         eng = engine
         ctx = self
